@@ -63,7 +63,8 @@ class Conn:
 
 
 class Driver:
-    def __init__(self, backend="sql", sub_limit=3, max_limit=50):
+    def __init__(self, backend="sql", sub_limit=3, max_limit=50, limiter_factory=None):
+        self.limiter_factory = limiter_factory
         self.backend = backend
         self.sub_limit = sub_limit
         self.max_limit = max_limit
@@ -75,6 +76,7 @@ class Driver:
         self.registries = []
         self.last_add = None
         self.last_prep = True
+        self.wedged = []        # REQs whose query task never produced a row or a sentinel
         self.scratch = env.Scratch()
 
     async def start(self):
@@ -123,22 +125,34 @@ class Driver:
             real_run_query = st.run_query
 
             async def gated_run_query(query, if_long=None):
+                # the REAL row stream stays open (query slot, connection, read snapshot held) while the task
+                # waits at its gate, so that a CLOSE / replacement cancels it mid-flight as it would in production
                 sub = drv.sub_of_task.get(asyncio.current_task())
-                rows = [ev async for ev in real_run_query(query)]
                 if sub is None:          # run_single_query etc.
-                    for ev in rows:
+                    async for ev in real_run_query(query):
                         yield ev
                     return
                 g = drv.gates[id(sub)]
-                g.batches = [[ev.id] for ev in rows]
-                g.ready.set()
+                g.batches = []
+                agen = real_run_query(query)
                 try:
-                    for ev in rows:
+                    async for ev in agen:
+                        g.batches.append([ev.id])
+                        g.ready.set()
                         await g.wait_step()
                         yield ev
                         g.steps_done += 1
+                    g.ready.set()
                     await g.wait_step()
                     g.steps_done += 1
+                except asyncio.CancelledError:
+                    # in production the cancellation is delivered INSIDE the row stream (the task is
+                    # waiting for the next row), not at a gate of ours: hand it on to the real generator
+                    try:
+                        await agen.athrow(asyncio.CancelledError())
+                    except (asyncio.CancelledError, StopAsyncIteration, RuntimeError):
+                        pass
+                    raise
                 finally:
                     g.finished = True
                     g.waiting.set()
@@ -243,7 +257,7 @@ class Driver:
         async def ws_close(code=1000):
             c.closed_code = code
 
-        c.limiter = NullLimiter()
+        c.limiter = self.limiter_factory() if self.limiter_factory else NullLimiter()
         c.task = asyncio.create_task(web.start_client(self.st, ws_send, ws_recv, ws_close, logging.getLogger("verif.relay"),
                                                       rate_limiter=c.limiter, remote_addr="10.0.0.%d" % cid))
         await self._wait_idle(c)
@@ -318,9 +332,10 @@ class Driver:
         for gid in set(self.gates) - before:
             g = self.gates[gid]
             try:
-                await asyncio.wait_for(g.ready.wait(), 30)
+                await asyncio.wait_for(g.ready.wait(), 8 if not self.wedged else 0.3)
             except asyncio.TimeoutError:
-                raise RuntimeError("query task did not reach its gate")
+                self.wedged.append({"c": cid, "m": message})
+                g.batches = g.batches or []
             rows = g.batches
         await self.settle()
         await self.free_orphans()
@@ -386,9 +401,34 @@ class Driver:
         self.ops.append({"op": "drop", "c": cid})
         self.registries.append(self._registry())
 
+    async def req_then_drop(self, cid, message):
+        """the client sends a REQ and goes away at once: both are already waiting when the handler reads"""
+        c = self.conns[cid]
+        if c.task.done():
+            return
+        self.last_prep = True
+        before = set(self.gates)
+        c.pending_subscribe = True
+        c.inbox.put_nowait(json.dumps(message))
+        c.inbox.put_nowait(None)
+        await asyncio.wait({c.task}, timeout=30)
+        c.pending_subscribe = False
+        rows = []
+        for gid in set(self.gates) - before:
+            g = self.gates[gid]
+            try:
+                await asyncio.wait_for(g.ready.wait(), 8)
+            except asyncio.TimeoutError:
+                pass
+            rows = g.batches or []
+        await self.settle()
+        await self.free_orphans()
+        self.ops.append({"op": "reqgone", "c": cid, "m": message, "rows": rows, "prep": self.last_prep, "can_query": True})
+        self.registries.append(self._registry())
+
     async def finish(self):
         """end of scenario: collect task health, close everything"""
-        health = {"escaped": [], "alive": []}
+        health = {"escaped": [], "alive": [], "wedged": self.wedged}
         for c in self.conns.values():
             if not c.task.done():
                 c.inbox.put_nowait(None)
@@ -396,6 +436,8 @@ class Driver:
                     await asyncio.wait_for(c.task, 30)
                 except Exception as e:      # noqa
                     health["escaped"].append("%d:%r" % (c.cid, e))
+            elif c.task.cancelled():
+                health["escaped"].append("%d:CancelledError left the connection handler" % c.cid)
             elif c.task.exception() is not None:
                 health["escaped"].append("%d:%r" % (c.cid, c.task.exception()))
         for (_, _, rel, _) in self.pending:
@@ -495,7 +537,9 @@ async def scenario(rng, backend, tier, hostile=False):
         await d.msg(0, ["EVENT", e])
         stored.add(e["id"])
     steps = rng.randint(4, 14 if tier == "quick" else 30)
-    sids = ["a", "b", "c", "aé"]
+    sids = ["a", "b", "c", "aé", ""]
+    odd = [5, True, None, -3, 0, False]
+    used = {}
     for _ in range(steps):
         openc = [c for c in d.conns.values() if not c.task.done()]
         if not openc:
@@ -510,7 +554,8 @@ async def scenario(rng, backend, tier, hostile=False):
                 fl.insert(rng.randrange(len(fl) + 1), rng.choice(BAD_FILTERS))
             if rng.random() < 0.05:
                 fl = []
-            sidv = sid if rng.random() < 0.9 else rng.choice([5, True, None, -3])
+            sidv = sid if rng.random() < 0.85 else rng.choice(odd)
+            used.setdefault(c.cid, []).append(sidv)
             await d.msg(c.cid, ["REQ", sidv] + fl, limited=rng.random() < 0.05)
         elif k == "event":
             e = rng.choice(evs)
@@ -521,7 +566,10 @@ async def scenario(rng, backend, tier, hostile=False):
             else:
                 await d.msg(c.cid, ["EVENT", e])
         elif k == "close":
-            await d.msg(c.cid, ["CLOSE", rng.choice(sids)])
+            if used.get(c.cid) and rng.random() < 0.6:
+                await d.msg(c.cid, ["CLOSE", rng.choice(used[c.cid])])     # an id this connection has used, in its raw JSON form
+            else:
+                await d.msg(c.cid, ["CLOSE", rng.choice(sids) if rng.random() < 0.8 else rng.choice(odd)])
         elif k == "row":
             rs = d.running_subs()
             if rs:
@@ -534,7 +582,10 @@ async def scenario(rng, backend, tier, hostile=False):
                 await d.notify(rng.randrange(len(d.pending)))
         elif k == "drop":
             if len(openc) > 1 or rng.random() < 0.3:
-                await d.drop(c.cid)
+                if rng.random() < 0.4:
+                    await d.req_then_drop(c.cid, ["REQ", rng.choice(sids), gen_filter(rng, evs)])
+                else:
+                    await d.drop(c.cid)
         elif k == "bad":
             if rng.random() < 0.5:
                 await d.msg(c.cid, text=rng.choice(["{", "", "[1,", "nul", "[\"REQ\""]))
@@ -562,11 +613,16 @@ def compare(suite, case, impl, health, model):
     brief = {"cfg": case["cfg"], "ops": [{k: (v if k != "m" else v) for k, v in o.items() if k not in ("rows",)} for o in case["ops"]][:40]}
     suite.case(brief, nontrivial=nontrivial)
     for o in case["ops"]:
+        if o["op"] == "reqgone":
+            suite.count("op_reqgone")
+            continue
         suite.count("op_" + o["op"] + ("_" + str(o["m"][0]) if o["op"] == "msg" and isinstance(o.get("m"), list) and o["m"] and isinstance(o["m"][0], str) else ""))
     if model.get("res") == "unmodelled":
         suite.count("unmodelled")
         return
     m = {"transcripts": model.get("transcripts"), "registries": model.get("registries"), "pending": model.get("pending")}
+    if m["registries"] and len(m["registries"]) == len(impl["registries"]):
+        m["registries"] = [None if b is None else a for a, b in zip(m["registries"], impl["registries"])]
     if model.get("res") != "ok" or m != impl:
         where = "res=%s" % model.get("res")
         if model.get("res") == "ok":
@@ -578,10 +634,59 @@ def compare(suite, case, impl, health, model):
             else:
                 where = "pending: model %r impl %r" % (m["pending"], impl["pending"])
         suite.disagree(case, where, impl)
+    if health.get("wedged"):
+        suite.violate("req-met-with-silence", case, "an accepted REQ produced neither stored rows nor EOSE (its query task is wedged)",
+                      observed=health["wedged"])
     if health["escaped"]:
         suite.violate("handler-exception-escaped", case, "an exception escaped web.start_client", observed=health["escaped"])
     if any(r for r in health["registry_after_close"]):
         suite.violate("registry-leak", case, "subscriptions remain registered after every connection ended", observed=health["registry_after_close"])
+
+
+async def churn_scenario(rng, backend, pairs):
+    """REQ immediately followed by CLOSE / replacement while the stored rows are still streaming, many times,
+    then a probe on the same and on another connection: both must still be answered"""
+    d = Driver(backend, sub_limit=3, max_limit=50)
+    await d.start()
+    await d.open(0)
+    await d.open(1)
+    evs = [env.mk_event(i % 3, 1, env.NOW - 50 + i, [["t", "x"]], "k%d" % i) for i in range(4)]
+    for e in evs:
+        await d.msg(1, ["EVENT", e])
+    for i in range(pairs):
+        await d.msg(0, ["REQ", "s", {"kinds": [1]}])
+        if rng.random() < 0.5 and (0, "s") in d.running_subs():
+            await d.row(0, "s")
+        if rng.random() < 0.5:
+            await d.msg(0, ["CLOSE", "s"])
+    await d.msg(0, ["CLOSE", "s"])
+    for c in (0, 1):
+        await d.msg(c, ["REQ", "probe", {"kinds": [1], "limit": 2}])
+        for _ in range(4):
+            if (c, "probe") in d.running_subs():
+                await d.row(c, "probe")
+    tr = d.transcripts()
+    ops, regs, npending = d.ops, d.registries, len(d.pending)
+    health = await d.finish()
+    cfg = {"sub_limit": d.sub_limit, "max_limit": d.max_limit, "kv": backend != "sql", "auth": False}
+    return {"cfg": cfg, "ops": ops}, {"transcripts": tr, "registries": regs, "pending": npending}, health
+
+
+def suite_churn(tier, seed, backend="sql", pid="RELAY"):
+    s = Suite("trace:churn-%s" % backend)
+    s.rule = ("12-40 REQs on one subscription id, each closed or replaced while its stored rows are still streaming (the real row stream is "
+              "open at its gate), then probe REQs on that and on a second connection, which must be answered with rows and EOSE")
+    rng = rng_for(seed, "churn-" + backend)
+    cases, impls, healths = [], [], []
+    for pairs in ([12, 25] if tier == "quick" else [12, 25, 40, 40]):
+        case, impl, health = env.run(churn_scenario(rng, backend, pairs))
+        cases.append(case)
+        impls.append(impl)
+        healths.append(health)
+    outs = model_batch("relay.run", cases, pid=pid)
+    for case, impl, health, mo in zip(cases, impls, healths, outs):
+        compare(s, case, impl, health, mo)
+    return s
 
 
 def suite_relay(tier, seed, backend="sql", n=None, hostile=False, label="relay", pid="RELAY"):
@@ -924,4 +1029,57 @@ def suite_exhaustive(tier, seed, backend="sql", pid="RELAY"):
     outs = model_batch("relay.run", cases, pid=pid)
     for case, impl, health, mo in zip(cases, impls, healths, outs):
         compare(s, case, impl, health, mo)
+    return s
+
+
+# ------------------------------------------------------------------ concurrent duplicate submission
+def suite_concurrent_dup(tier, seed, backends=("sql",)):
+    """the same event submitted by several connections at the same moment: exactly one submission is
+    acknowledged as new and every matching subscription gets the event exactly once"""
+    s = Suite("oracle:concurrent-duplicates")
+    s.rule = ("k in 2..4 simultaneous add_event calls (asyncio.gather) of one signed event with one matching and one non-matching "
+              "subscription open; expected: exactly one True, one live frame for the matching subscription, none for the other, one stored copy")
+    rng = rng_for(seed, "condup")
+
+    async def one(backend, k, kind):
+        env.load_config()
+        env.patch_clock()
+        sc = env.Scratch()
+        st = await (env.sql_storage(sc) if backend == "sql" else env.kv_storage(sc))
+        q1, q2 = asyncio.Queue(), asyncio.Queue()
+        await st.subscribe(env.FakeClient("a"), "s", [{"kinds": [kind]}], q1)
+        await st.subscribe(env.FakeClient("b"), "t", [{"kinds": [kind + 1]}], q2)
+        e = env.mk_event(rng.randrange(3), kind, env.NOW - 5, [["t", "x"]], "dup%d" % rng.randrange(10 ** 6))
+
+        async def sub():
+            try:
+                return bool((await st.add_event(dict(e)))[1])
+            except Exception as ex:
+                return type(ex).__name__
+        res = await asyncio.gather(*[sub() for _ in range(k)])
+        await env.quiesce(st)
+        for _ in range(5):
+            for t in list(st._notify_sub_tasks):
+                try:
+                    await t
+                except Exception:
+                    pass
+            await asyncio.sleep(0)
+        live1 = sum(1 for _ in range(q1.qsize()) if (lambda it: it[1] is not None and it[1].id == e["id"])(q1.get_nowait()))
+        live2 = sum(1 for _ in range(q2.qsize()) if (lambda it: it[1] is not None and it[1].id == e["id"])(q2.get_nowait()))
+        stored = (await env.stored_ids(st)).count(e["id"])
+        await env.close(st)
+        sc.close()
+        return {"backend": backend, "k": k, "kind": kind, "event": e["id"]}, {"results": res, "live_match": live1, "live_other": live2, "stored": stored}
+    for backend in backends:
+        for i in range(6 if tier == "quick" else 40):
+            k = rng.choice([2, 3, 4])
+            case, obs = env.run(one(backend, k, rng.choice([1, 7])))
+            s.case(case, nontrivial=True)
+            s.count("backend_" + backend)
+            ok = obs["results"].count(True) == 1 and obs["live_match"] == 1 and obs["live_other"] == 0 and obs["stored"] == 1
+            if not ok:
+                s.violate("%s_concurrent_duplicate" % backend, case,
+                          "simultaneous submissions of one event: expected one acknowledgement as new and one live delivery",
+                          expected={"results_true": 1, "live_match": 1, "live_other": 0, "stored": 1}, observed=obs)
     return s
